@@ -176,6 +176,7 @@ class StructIndex:
     def __init__(self, repo_src):
         self.repo_src = repo_src
         self.cache = None
+        self.enums = None
 
     def _load(self):
         import os
@@ -197,6 +198,47 @@ class StructIndex:
                         if mm and not line.startswith("#"):
                             fields.append(mm.group(1))
                     self.cache.setdefault(m.group(1), fields)
+
+    def variant_count(self, type_str):
+        t = re.sub(r"^std::(option|result|task|task::poll|ops|ops::control_flow|cmp)::", "", strip_ref(type_str or "").strip())
+        t = re.sub(r"^core::(option|result|task::poll|ops::control_flow)::", "", t)
+        for name in ("Option<", "Result<", "Poll<", "ControlFlow<"):
+            if t.startswith(name):
+                return 2
+        if self.enums is None:
+            import os
+            self.enums = {}
+            pat = re.compile(r"\benum\s+(\w+)\s*(?:<[^>{]*>)?\s*\{(.*?)\n\}", re.S)
+            for root, _, files in os.walk(self.repo_src):
+                for f in files:
+                    if f.endswith(".rs"):
+                        try:
+                            txt = open(os.path.join(root, f), errors="replace").read()
+                        except OSError:
+                            continue
+                        for m in pat.finditer(txt):
+                            body = re.sub(r"//[^\n]*", "", m.group(2))
+                            # count top-level variants
+                            depth, n, cur = 0, 0, ""
+                            for ch in body:
+                                if ch in "({[":
+                                    depth += 1
+                                elif ch in ")}]":
+                                    depth -= 1
+                                elif ch == "," and depth == 0:
+                                    if re.search(r"\w", re.sub(r"#\[[^\]]*\]", "", cur)):
+                                        n += 1
+                                    cur = ""
+                                    continue
+                                cur += ch
+                            if re.search(r"\w", re.sub(r"#\[[^\]]*\]", "", cur)):
+                                n += 1
+                            if m.group(1) in self.enums and self.enums[m.group(1)] != n:
+                                self.enums[m.group(1)] = 0  # ambiguous name
+                            else:
+                                self.enums.setdefault(m.group(1), n)
+        base = re.sub(r"<.*$", "", t).split("::")[-1].strip()
+        return self.enums.get(base, 0)
 
     def name(self, type_str, idx):
         if self.cache is None:
@@ -241,6 +283,7 @@ class Evaluation:
         self.site_counter = {}
         self.site_of_bb = {}
         self.await_counter = {}
+        self.domain = {}  # discriminant symbol -> range constraint (number of enum variants)
         self.capture_names = {}
         for name, places in fn.debug.items():
             for txt in places:
@@ -552,7 +595,11 @@ class Evaluation:
                 return z3.BitVecVal(known[last], 64)
             return Opaque(f"disc:{tag}")
         if isinstance(v, Opaque):
-            return z3.BitVec(f"disc({v.label})", 64)
+            d = z3.BitVec(f"disc({v.label})", 64)
+            n = self.structs.variant_count(ty)
+            if n:
+                self.domain[f"disc({v.label})"] = z3.ULT(d, z3.BitVecVal(n, 64))
+            return d
         if isinstance(v, Phi):
             ds = [(c, self.discriminant(x, ty)) for c, x in v.alts]
             if all(is_term(d) for _, d in ds):
